@@ -115,6 +115,11 @@ fn ci_models(rep: &Report, kinds: &[Kind]) -> Vec<ModelDef> {
         .collect();
     v.extend(defs_named(adv, kinds, true));
     v.extend(defs("U0ci", u::u0(), kinds, true));
+    // "bytes >= 0x80 and all non-letters must match exactly": the ends of the
+    // byte range and the ASCII boundary under folding (every table is
+    // stepped with all 256 byte values, so a class shared between 0xFE and
+    // 0xFF, or 0x7F and 0x80, shows at the table level)
+    v.extend(defs("UedgeCi", u::uedge(), kinds, true));
     let pre: Vec<(String, u::Pats)> = crate::e3::prefilter_families().into_iter().filter(|f| f.ci).map(|f| (format!("Upre:{}", f.name), f.pats)).collect();
     v.extend(defs_named(pre, kinds, true));
     v
@@ -123,6 +128,13 @@ fn ci_models(rep: &Report, kinds: &[Kind]) -> Vec<ModelDef> {
 fn run_e1(rep: &Report) -> i32 {
     let t = rep.thorough();
     let all = Kind::ALL;
+    if rep.property == "C14" {
+        // "occurs in the span": the span is whatever the caller stated
+        // through Input, by any of its constructors / setters
+        let mut st = crate::report::Stats::default();
+        crate::e3::check_input_forms(rep, &mut st);
+        rep.merge(&st);
+    }
     let (models, o, rule, design, assumptions): (Vec<ModelDef>, Opts, &str, &str, Vec<&str>) = match rep.property.as_str() {
         "C01" => (
             base_models(rep, &[Kind::LF, Kind::LL]),
